@@ -59,7 +59,8 @@ def c01_slices(tier):
         7, Shapes="{<<2,2>>, <<3,2>>, <<3,3>>}",
         IdSets=subsets_of_size(1, 6, [2, 3]) if th else "{S \\in SUBSET {1,2,5,6} : Cardinality(S) \\in {2,3}}",
         KeyChoices="{3}", CoeffChoices="{0,5}", RandChoices="{1,2}" if th else "{1}", Msgs="{<<104,105>>}",
-        ListOrders='{"asc","rot"}', MaxExtra="1", DomH3="{2,5}", DomH1="{1,5}", DomH2="{0,3}", EMIT="TRUE")))
+        ListOrders='{"asc","rot"}', CoordPkps='{"current","legacy"}', MaxExtra="1", DomH3="{2,5}", DomH1="{1,5}", DomH2="{0,3}",
+        EMIT="TRUE")))
     # B: every key, polynomial and nonce value for one identifier set
     sl.append(dict(name="B_values", module="C01", invariants=C01_INV, consts=consts(
         7, Shapes="{<<3,2>>}", IdSets="{{2,3,5}}", KeyChoices="1..6", CoeffChoices=ZQ(7),
@@ -80,6 +81,12 @@ def c01_slices(tier):
         257, Shapes="{<<n,n>> : n \\in %s}" % sizes, IdSets="{1..n : n \\in %s}" % sizes, KeyChoices="{200}",
         CoeffChoices="{3}", RandChoices="{1}", Msgs="{<<104,105>>}", MaxExtra="0", DomH3="{77}", DomH1="{5}",
         DomH2="{100}", EMIT="TRUE")))
+    # T: identifiers that differ in the most significant byte of their encoding only (1 = 0x0001, 257 = 0x0101),
+    # in the witness field q = 23099
+    sl.append(dict(name="T_top_byte_ids", module="C01", invariants=C01_INV, consts=consts(
+        23099, Shapes="{<<3,2>>, <<4,3>>}", IdSets="{{1,257,2}, {1,257,513,258}, {255,511,256}}", KeyChoices="{20000}",
+        CoeffChoices="{3}", RandChoices="{1}", Msgs="{<<104,105>>}", MaxExtra="1", DomH3="{77,9000}", DomH1="{5}",
+        DomH2="{100}", EMIT="TRUE")))
     sl += life_slices(tier)
     if th:
         sl.append(dict(name="E_q11_values", module="C01", invariants=C01_INV, timeout=3000, consts=consts(
@@ -88,8 +95,8 @@ def c01_slices(tier):
             EMIT="TRUE")))
         sl.append(dict(name="F_q13_ids", module="C01", invariants=C01_INV, timeout=3000, consts=consts(
             13, Shapes="{<<3,2>>, <<4,3>>}", IdSets=subsets_of_size(1, 12, [3, 4]).replace("1..12", "{1,2,5,11,12}"),
-            KeyChoices="{5}", CoeffChoices="{0,9}", RandChoices="{1,2}", Msgs="{<<1>>}", MaxExtra="1",
-            DomH3="{2,5}", DomH1="{1,6}", DomH2="{4}", EMIT="TRUE")))
+            KeyChoices="{5}", CoeffChoices="{0,9}", RandChoices="{1}", Msgs="{<<1>>}", MaxExtra="1",
+            DomH3="{2,5}", DomH1="{6}", DomH2="{4}", EMIT="TRUE")))
     return _c01_defaults(sl)
 
 
@@ -98,6 +105,7 @@ def _c01_defaults(sl):
         if s.get("module") == "C01":
             s["consts"].setdefault("ListOrders", '{"asc"}')
             s["consts"].setdefault("BatchAtEnd", "FALSE")
+            s["consts"].setdefault("CoordPkps", '{"current"}')
     return sl
 
 
@@ -114,7 +122,7 @@ MODES3 = '<<"Disabled", "FirstCheater", "AllCheaters">>'
 def c04_slices(tier):
     th = tier == "thorough"
     base = dict(KeyChoices="{3}", CoeffChoices="{5}", RandChoices="{1}", MsgA="<<104,105>>", MsgB="<<>>",
-                DomH3="{2,5}", DomH1="{1,5}", DomH2="{3}", Modes=MODES3, MaxCheaters="99", EMIT="TRUE")
+                DomH3="{2,5}", DomH1="{1,5}", DomH2="{3}", Modes=MODES3, MaxCheaters="99", CoordPkps='{"current"}', EMIT="TRUE")
     sl = []
     # S: size sweep: 2..10 signers (thorough: 16), up to two cheaters (+1 / -1: a cancelling pair) at every position
     nmax = 16 if th else 10
@@ -124,7 +132,7 @@ def c04_slices(tier):
     # A: every cheater subset x kind, three signers, all three modes
     sl.append(dict(name="A_subsets_kinds", module="C04", invariants=C04_INV, consts=consts(
         7, Shapes="{<<3,2>>}", IdSets="{{2,3,5}}", MaxExtra="1", Deltas="{1,6}" if not th else "1..6",
-        Kinds='{"add","neg","zero","other","sessB","negnonce"}', **base)))
+        Kinds='{"add","neg","zero","other","sessB","negnonce"}', **dict(base, CoordPkps='{"current","legacy"}'))))
     # B: every offset value for every non-empty cheater subset, two signers of {3,5}
     sl.append(dict(name="B_offsets", module="C04", invariants=C04_INV, consts=consts(
         7, Shapes="{<<2,2>>, <<3,2>>}", IdSets="{{3,5}, {1,3,5}}", MaxExtra="0", Deltas="1..6",
@@ -154,10 +162,11 @@ ALLPROBES = '{"xsess","mix","msg","comm","drop","add","vk","id","own","ident","r
 def c05_slices(tier):
     th = tier == "thorough"
     base = dict(KeyChoices="{3}", Key2Choices="{5}", CoeffChoices="{5}", RandChoices="{1}", MsgA="<<104,105>>",
-                MsgB="<<104>>", DomH3="{2,5}", DomH1="{1,5}", DomH2="{3,4}", CommDeltas="{1,3}", EMIT="TRUE")
+                MsgB="<<104>>", DomH3="{2,5}", DomH1="{1,5}", DomH2="{3,4}", CommDeltas="{1,3}", CoordPkps='{"current"}', EMIT="TRUE")
     sl = []
     sl.append(dict(name="A_probes", module="C05", invariants=C05_INV, consts=consts(
-        7, Shapes="{<<3,2>>}", IdSets="{{2,3,5}}", MaxExtra="1" if th else "0", Probes=ALLPROBES, **base)))
+        7, Shapes="{<<3,2>>}", IdSets="{{2,3,5}}", MaxExtra="1" if th else "0", Probes=ALLPROBES,
+        **dict(base, CoordPkps='{"current","legacy"}'))))
     sl.append(dict(name="B_same_msg", module="C05", invariants=C05_INV, consts=consts(
         7, Shapes="{<<2,2>>}", IdSets="{{3,5}}", MaxExtra="0", Probes='{"xsess","mix","comm","id"}' if th else '{"xsess","mix"}',
         **dict(base, MsgB="<<104,105>>", RandChoices="{1,2}", DomH3="{2,5}", DomH1="{0,1,5}" if th else "{1,5}",
@@ -205,7 +214,7 @@ C06_FATAL = {"split:ok", "split:shares", "split:commit", "split:vs", "split:vk",
              "kp_from_ss:vk", "kp_from_ss:min", "reconstruct:ok", "reconstruct:key", "*:panic"}
 
 # ------------------------------------------------------------------------ C03
-C03_INV = ["InvRefuse", "InvNoForgery", "InvNoThresholdlessRepair", "Emit"]
+C03_INV = ["InvRefuse", "InvNoForgery", "InvNoThresholdlessRepair", "InvNoThresholdLoweringRefresh", "Emit"]
 
 
 def c03_slices(tier):
@@ -236,7 +245,7 @@ def c03_secrecy(ctx):
         lib.assume_stage(ctx, name, "C03Secrecy", c)
 
 
-C03_FATAL = {"repair3:ok", "repair1:ok", "sign:ok", "aggregate:ok", "verify:ok", "reconstruct:ok", "reconstruct:key", "split:ok", "split:shares",
+C03_FATAL = {"repair3:ok", "repair1:ok", "sign:ok", "aggregate:ok", "aggregate:refused_on_count", "dkg3:ok", "verify:ok", "reconstruct:ok", "reconstruct:key", "split:ok", "split:shares",
              "split:commit", "split:rng_unused", "split:rng_overrun", "*:panic"}
 
 # ------------------------------------------------------------------------ C07
@@ -356,7 +365,7 @@ C09_FATAL = {"dkg2:ok", "dkg3:ok", "dkg3:kp", "dkg3:pkp", "dkg1:ok", "*:panic"}
 
 # ------------------------------------------------------------------------ C10
 C10_INV = ["InvRelinked", "InvSameSecret", "InvRefreshOk", "InvSigning", "InvSigning2", "InvVerify", "InvRejected", "Emit"]
-ALLSCEN = '{"ok","small","unknown","tchange","nonzero","onelen"}'
+ALLSCEN = '{"ok","small","unknown","tchange","nonzero","onelen","tchange_legacy"}'
 
 
 def c10_slices(tier):
@@ -495,14 +504,14 @@ def c17_slices(tier):
     sl = []
     sl.append(dict(name="A_faults", module="C17", invariants=C17_INV, consts=consts(
         7, Shapes="{<<3,2>>}", IdSets="{{2,3,5}}", MaxExtra="1", SeedChoices="{5,300}",
-        Faults='{"none","seed","comm","share","fixed","few"}', SeedFaults='{"last","append","append0","trunc","empty"}',
+        Faults='{"none","seed","comm","share","share2","fixed","few"}', SeedFaults='{"last","append","append0","trunc","empty"}',
         FixedAlphas="{0,1,4}", DomHR="{0,2,4}" if th else "{2,4}", **base)))
     sl.append(dict(name="B_all_randomizers", module="C17", invariants=C17_INV, consts=consts(
         7, Shapes="{<<2,2>>}", IdSets="{{3,5}}", MaxExtra="0", SeedChoices="{5}", Faults='{"none","seed","fixed"}', SeedFaults='{"last","append"}',
         FixedAlphas=ZQ(7), DomHR=ZQ(7), **dict(base, DomH2=ZQ(7) if th else "{0,3,6}"))))
     sl.append(dict(name="C_shape_s4", module="C17", invariants=C17_INV, consts=consts(
         11, Shapes="{<<4,3>>}", IdSets="{{1,2,3,4}, {2,5,7,10}}", MaxExtra="1", SeedChoices="{9}",
-        Faults='{"none","seed","comm","share","few"}', SeedFaults='{"last","trunc"}', FixedAlphas="{1}", DomHR="{6}",
+        Faults='{"none","seed","comm","share","share2","few"}', SeedFaults='{"last","trunc"}', FixedAlphas="{1}", DomHR="{6}",
         **dict(base, DomH3="{4}", DomH1="{3}", DomH2="{5}", KeyChoices="{7}", CoeffChoices="{3}"))))
     sl += life_slices(tier, ops=None if th else [["rrsign", "refresh_dkg", "rrsign"], ["refresh_dealer", "rrsign", "repair", "rrsign"]])
     return sl
